@@ -59,6 +59,9 @@ def sweeps(tier, rng):
     for lo in range(0, len(cvals), 9000):        # one TLC run per 9000 values: a set literal of 10^5 records takes SANY an hour
         out.append(sweep(cvals[lo:lo + 9000], [['html_quote']], forms=('entity',)))
     out.append(sweep(cvals[::7], [[]], fmts=('', 'html-quote'), forms=('name',)))
+    # html_quote together with size=: sizes between the length of the value and the length of its escaped text (and around them)
+    sv = [text(x_) for x_ in ('a<b>c', 'Fish & Chips <new>', '"q"', "it's", '<<>>&&', 'x > y & z', 'plain text')]
+    out.append(sweep(sv, [['html_quote']], sizes=(3, 4, 5, 6, 8, 11, 12, 18, 20, 27, 28, 40), etcs=('default', 'tilde'), forms=('name', 'expr')))
     # the entity with an empty modifier list, &dtml.-x;, is the plain insertion
     out.append(sweep(cvals[::11] + [text(x_) for x_ in ('a<b', '&amp;', "it's \"q\" > &")], [[]], forms=('entity', 'name')))
     # values that are not strings: inserted as their str() form, which is escaped like any text
